@@ -97,7 +97,8 @@ NSMAP = TMap(STR, STR)
 
 CSSMATCH = ObjType('CSSMatch',
                    immut=dict(tag=NODE, selectors=SELLIST, flags=INT, root=NODE, scope=NODE, has_html_namespace=BOOL,
-                              is_xml=BOOL, is_html=BOOL),
+                              is_xml=BOOL, is_html=BOOL, cached_meta_lang=TSeq(INT), cached_default_forms=TSeq(INT),
+                              cached_indeterminate_forms=TSeq(INT)),
                    mut=dict(namespaces=NSMAP, iframe_restrict=BOOL),
                    cls_qual='soupsieve.css_match.CSSMatch')
 
@@ -166,6 +167,10 @@ def install(world):
     def p_html_ns_map(eng, args, st, node):
         return eng.lift_py({'html': VT.NS_XHTML}, NSMAP, node)
     world.add_prim('html_ns_map', p_html_ns_map, VT.html_ns_map)
+
+    def p_empty_map(eng, args, st, node):
+        return eng.lift_py({}, NSMAP, node)
+    world.add_prim('html_free_map', p_empty_map, VT.html_free_map)
     # util.lower seen from SMT strings: the function proved over code points (contracts/strings.py), other representation
     world.str_views = getattr(world, 'str_views', {})
     world.str_views['soupsieve.util.lower'] = ascii_lower
